@@ -31,6 +31,21 @@ class PathEnd(Exception):
     """Normal early end of a path (e.g. after the inductive step of a loop cut)."""
 
 
+def _has_quantifier(e):
+    seen = set()
+    stack = [e]
+    while stack:
+        x = stack.pop()
+        if z3.is_quantifier(x):
+            return True
+        i = x.get_id()
+        if i in seen:
+            continue
+        seen.add(i)
+        stack.extend(x.children())
+    return False
+
+
 class Engine:
     def __init__(self, timeout_ms=10000, max_paths=50000, max_decisions=2000, seed=0):
         self.timeout_ms = timeout_ms
@@ -55,14 +70,20 @@ class Engine:
         s.set("random_seed", self.seed)
         return s
 
-    def check(self, extra=()):
-        """satisfiability of facts + pc + extra -> 'sat' | 'unsat' | 'unknown' , model"""
+    def check(self, extra=(), feasibility=False):
+        """satisfiability of facts + pc + extra -> 'sat' | 'unsat' | 'unknown' , model.
+        feasibility=True: quick over-approximate test used only to prune paths: quantified hypotheses are dropped
+        (more paths are explored, never fewer) and the time limit is short; 'unknown' counts as feasible."""
         t0 = time.time()
         s = self._mk_solver()
+        if feasibility:
+            s.set("timeout", 2000)
         for f in self.facts:
-            s.add(f)
+            if not (feasibility and _has_quantifier(f)):
+                s.add(f)
         for c in self.pc:
-            s.add(c)
+            if not (feasibility and _has_quantifier(c)):
+                s.add(c)
         for e in extra:
             s.add(e)
         r = s.check()
@@ -106,7 +127,7 @@ class Engine:
                 if z3.is_true(cs):
                     feas.append(i)
                     continue
-                r, _ = self.check([c])
+                r, _ = self.check([c], feasibility=True)
                 if r != "unsat":
                     feas.append(i)
             if not feas:
